@@ -932,7 +932,15 @@ class ServerSSM(SSM):
         # there is a value in the device information then use that one because
         # it came from reading device object property value or from an I-Am
         # message that was received
-        self.maxApduLengthAccepted = decode_max_apdu_length_accepted(apdu.apduMaxResp)
+        try:
+            self.maxApduLengthAccepted = decode_max_apdu_length_accepted(apdu.apduMaxResp)
+        except ValueError:
+            # reserved encoding, the transaction is already being tracked so
+            # it must be taken out of the table again
+            if _debug: ServerSSM._debug("    - reserved max APDU length accepted: %r", apdu.apduMaxResp)
+            abort = self.abort(AbortReason.other)
+            self.response(abort)
+            return
         if self.device_info and self.device_info.maxApduLengthAccepted is not None:
             if self.device_info.maxApduLengthAccepted < self.maxApduLengthAccepted:
                 if _debug: ServerSSM._debug("    - apduMaxResp encoding error")
